@@ -312,6 +312,7 @@ def r5_documented_factors(ctx):
         A = Agg(ctx)
         npg = 0
         seen = set()
+        t_all = op("eq", ("s", nrb), ("idx", ("attr", ("s", k), "shape"), ("c", 0)))
         for P in paths:
             ret = P.ret
             o = P.obj(ret)
@@ -344,6 +345,14 @@ def r5_documented_factors(ctx):
                 except Unsupported as ex:
                     A.req(name, None, e.node, f"{ex}: {show(P.norm(e.value))}")
             A.req(f"{tag}: no other part of the solution is scaled", not extra, fn, extra, nontrivial=False)
+            # what every path with elastic modes must scale
+            mine = {(fld[e.target], _region(P.norm(e.index), nrb, rfm, save)) for e in P.stores() if e.target in fld}
+            if fact_of(P, t_all) is False:
+                need = [("a", "nrb:"), ("v", "nrb:")] + ([("d_static", "nrb:"), ("d_dynamic", "elastic")] if kdim == 1 else [])
+                if fact_of(P, ("truth", ("s", nrb))) is True:
+                    need += [("a", ":nrb"), ("v", ":nrb"), ("d_static", ":nrb"), ("d_dynamic", ":nrb")]
+                miss = [f"{a_}[{b_}]" for a_, b_ in need if (a_, b_) not in mine]
+                A.req(f"{tag}: every path with elastic modes scales all parts of the solution", not miss, fn, {"not assigned on a path": miss})
             pgv = o.fields.get("pg")
             if pgv is not None:
                 npg += 1
